@@ -623,4 +623,68 @@ theorem wf_run {w : World} (h : WF w) (ops : List Op) : WF (run w ops) := by
 theorem run_append (w : World) (xs ys : List Op) : run w (xs ++ ys) = run (run w xs) ys := by
   simp [run, List.foldl_append]
 
+/-! ### A live session's issuing credential is still the account's credential -/
+
+def CredInv (w : World) : Prop :=
+  ∀ a acc s v, w.accounts a = some acc → acc.sessions s = some v → v.state ≠ .revokedAt →
+    acc.cred = some v.cred
+
+theorem credInv_step {w : World} (hi : CredInv w) (op : Op) : CredInv (step w op) := by
+  intro a acc s v hacc hs hv
+  cases hm : op.asModify with
+  | some m =>
+    obtain ⟨a0, t, f⟩ := m
+    rw [step_asModify hm] at hacc
+    by_cases hk : a = a0
+    · subst hk
+      cases h0 : w.accounts a with
+      | none =>
+        rw [modifyAccount_none h0] at hacc
+        rw [h0] at hacc; cases hacc
+      | some acc0 =>
+        rw [modifyAccount_same h0] at hacc
+        cases hacc
+        rw [touch_sessions] at hs
+        cases hf : (f acc0).sessions s with
+        | none => simp [hf] at hs
+        | some v0 =>
+          simp only [hf, Option.map_some, Option.some.injEq] at hs
+          subst hs
+          obtain ⟨hsame, hcred, _⟩ := sweep_live hv
+          rw [hsame, touch_cred]; exact hcred
+    · rw [modifyAccount_other hk] at hacc
+      exact hi a acc s v hacc hs hv
+  | none =>
+    cases op <;> simp [Op.asModify] at hm
+    case addAccount a0 c0 =>
+      by_cases hc : w.ids.contains a0 = true
+      · rw [step_addAccount_old c0 hc] at hacc; exact hi a acc s v hacc hs hv
+      · rw [step_addAccount_new c0 hc] at hacc
+        by_cases hk : a = a0
+        · simp [hk] at hacc
+          subst hacc
+          simp at hs
+        · simp only [hk, if_false] at hacc
+          exact hi a acc s v hacc hs hv
+    case delete a0 =>
+      simp only [step] at hacc
+      by_cases hk : a = a0
+      · simp [hk] at hacc
+      · simp only [hk, if_false] at hacc
+        exact hi a acc s v hacc hs hv
+    case keyAdd k0 =>
+      have : (step w (.keyAdd k0)).accounts = w.accounts := by
+        simp only [step]; cases w.keys k0 <;> rfl
+      rw [this] at hacc
+      exact hi a acc s v hacc hs hv
+    case keyRevoke k0 => exact hi a acc s v hacc hs hv
+
+theorem credInv_empty : CredInv World.empty := by
+  intro a acc s v hacc; simp [World.empty] at hacc
+
+theorem credInv_run {w : World} (hi : CredInv w) (ops : List Op) : CredInv (run w ops) := by
+  induction ops generalizing w with
+  | nil => exact hi
+  | cons op rest ih => rw [run_cons]; exact ih (credInv_step hi op)
+
 end Kanidm.Bearer
